@@ -32,9 +32,9 @@ type Mode struct {
 	MaxHtlcs    int
 	// Hooks for other engines (C04/C05): called with the live sim.
 	OnPreRevoke func(s *Sim, side int)
-	OnRevoke func(s *Sim, side int, revokedHeight uint64, revokedTx []byte, snap *RevokedSnap)
-	OnFinish func(s *Sim)
-	OnEvent  func(s *Sim)
+	OnRevoke    func(s *Sim, side int, revokedHeight uint64, revokedTx []byte, snap *RevokedSnap)
+	OnFinish    func(s *Sim)
+	OnEvent     func(s *Sim)
 }
 
 // RevokedSnap carries what the breacher could broadcast for a revoked height.
@@ -73,9 +73,9 @@ type Sim struct {
 	aborted bool
 	// Fwd[x][height] is the forwarding package side x persisted when it
 	// processed the peer's revocation for that remote height.
-	Fwd     [2]map[uint64]*FwdRec
-	lastSig [2][]byte
-	forkNo  int
+	Fwd         [2]map[uint64]*FwdRec
+	lastSig     [2][]byte
+	forkNo      int
 	staleWrites int
 	// concurrency probe: both sides had unacked work at once
 	concurrent bool
@@ -120,10 +120,10 @@ func wireBytes(m lnwire.Message) []byte {
 type errClass int
 
 const (
-	errNone errClass = iota
-	errConstraint // a channel-constraint refusal: a legitimate outcome
-	errSig        // signature / key disagreement
-	errInjected   // our own injected fault surfaced
+	errNone       errClass = iota
+	errConstraint          // a channel-constraint refusal: a legitimate outcome
+	errSig                 // signature / key disagreement
+	errInjected            // our own injected fault surfaced
 	errOther
 )
 
@@ -554,12 +554,30 @@ func (s *Sim) deliver(from int) {
 		}
 		if fwd != nil {
 			rec := &FwdRec{}
-			for _, u := range fwd.Adds {
-				rec.Adds = append(rec.Adds, wireBytes(u.UpdateMsg))
+			// what the forwarding package hands to the switch is what the
+			// peer sent, byte for byte (a settle with another preimage, an
+			// add with another onion or amount is a different message)
+			sent := map[string]bool{}
+			for _, u := range s.M.S[from].Log {
+				sent[string(u.Wire)] = true
 			}
-			for _, u := range fwd.SettleFails {
-				rec.SettleFails = append(rec.SettleFails, wireBytes(u.UpdateMsg))
+			for i, u := range fwd.Adds {
+				wb := wireBytes(u.UpdateMsg)
+				if !sent[string(wb)] {
+					r.Fail("fwdpkg-content", "%s: add %d of the forwarding package for height %d (%T) is not a message the peer sent", who, i, fwd.Height, u.UpdateMsg)
+				}
+				rec.Adds = append(rec.Adds, wb)
 			}
+			for i, u := range fwd.SettleFails {
+				wb := wireBytes(u.UpdateMsg)
+				// settles byte for byte; lnd re-encodes fails (a malformed
+				// fail becomes a plain one), those are not compared here
+				if _, isSettle := u.UpdateMsg.(*lnwire.UpdateFulfillHTLC); isSettle && !sent[string(wb)] {
+					r.Fail("fwdpkg-content", "%s: settle %d of the forwarding package for height %d is not a message the peer sent (another preimage or HTLC id): %x", who, i, fwd.Height, wb)
+				}
+				rec.SettleFails = append(rec.SettleFails, wb)
+			}
+			r.Count("fwdpkg_content_checks")
 			s.Fwd[to][fwd.Height] = rec
 			for i, add := range fwd.Adds {
 				if a, ok := add.UpdateMsg.(*lnwire.UpdateAddHTLC); ok {
